@@ -97,7 +97,7 @@ def _worker(idx):
         return {"family": spec.name, "props": sorted(spec.props), "functions": spec.functions, "optional": spec.optional,
                 "error": fam.error, "paths": fam.paths, "stats": fam.stats, "obls": recs,
                 "explore_s": round(fam.seconds, 3), "wall_s": round(time.time() - t0, 3),
-                "bounded": fam.bounded, "extra": getattr(fam, "extra", None)}
+                "bounded": fam.bounded, "extra": getattr(fam, "extra", None), "helpers": getattr(fam, "helpers_used", [])}
     except FamilyTimeout:
         return {"family": spec.name, "props": sorted(spec.props), "functions": spec.functions, "optional": spec.optional,
                 "error": f"unsupported: the family exceeded its time budget of {FAMILY_BUDGET_S.get(_TIER, 420)} s (path explosion or a solver query that does not return)",
